@@ -81,13 +81,16 @@ class Bystander(HttpProxyBasePlugin):
     """A plugin that has no opinion on interception (keeps the default): loaded before or after the opting-out one."""
 
 
-def flags_for(insecure: bool, plug: str = 'optout') -> Any:
+def flags_for(insecure: bool, plug: str = 'optout', recvbuf: Any = None) -> Any:
     args = ['--ca-key-file', _P['ica'][0], '--ca-cert-file', _P['ica'][1], '--ca-signing-key-file', _P['sign_key'],
             '--ca-cert-dir', _P['certs'], '--ca-file', _P['oca'][1]]
+    if recvbuf:
+        # a documented tuning knob; a TLS record (up to 16 KiB of plaintext) may be larger than one read
+        args += ['--client-recvbuf-size', str(recvbuf), '--server-recvbuf-size', str(recvbuf)]
     if insecure:
         args.append('--insecure-tls-interception')
     plugins = {'optout': [OptOut], 'optout+bystander': [OptOut, Bystander], 'bystander+optout': [Bystander, OptOut]}[plug]
-    return make_flags(args, plugins=plugins, cache_key='c11:%s:%s:%s' % (insecure, _P['dir'], plug), threaded=True)
+    return make_flags(args, plugins=plugins, cache_key='c11:%s:%s:%s:%s' % (insecure, _P['dir'], plug, recvbuf), threaded=True)
 
 
 # what the origin's (perfectly valid) certificate says about its owner; the proxy copies these fields into the certificate it issues
@@ -590,7 +593,7 @@ def run_case(case: Dict[str, Any]) -> Dict[str, Any]:
             subject = case.get('subject', 'plain') if situation == 'good' else 'plain'
             origin = TlsOrigin(ip, origin_leaf(situation, host, (alt,) if alt else (), subject), responses)
             origin.start()
-            flags = flags_for(insecure, case.get('plugins', 'optout'))
+            flags = flags_for(insecure, case.get('plugins', 'optout'), case.get('recvbuf'))
             first_host = host
             for conn_no in range(case['connections'] + (1 if alt else 0)):
                 host = alt if (alt and conn_no == case['connections']) else first_host
@@ -777,6 +780,7 @@ def run_case(case: Dict[str, Any]) -> Dict[str, Any]:
         shim.S.all_threads_active = False
     if situation == 'good' and not optout and not viol:
         obs['subject:' + case.get('subject', 'plain')] = 1
+    obs['recvbuf:%s' % case.get('recvbuf')] = 1
     obs.update({'plugins:' + case.get('plugins', 'optout'): 1, 'situation:' + situation: 1, 'host:' + hostkind: 1, 'insecure:%s' % insecure: 1, 'optout:%s' % optout: 1})
     seen = set()
     uniq = []
@@ -814,9 +818,9 @@ def cases(tier: str, seed: int):
                         i += 1
                         yield {'seed': seed, 'i': i, 'host': hostkind, 'situation': situation, 'insecure': insecure, 'optout': optout,
                                'requests': rng.choice([1, 2, 3]), 'resp_size': rng.choice([0, 50, 3000, 300000]) if situation == 'good' or insecure else 50,
-                               'req_body': rng.choice([0, 20, 5000]), 'cuts': rng.choice([0, 1, 5]), 'client_pace': rng.choice(['eager', 'slow']),
+                               'req_body': rng.choice([0, 20, 5000, 9000, 16000, 40000]), 'cuts': rng.choice([0, 1, 5]), 'client_pace': rng.choice(['eager', 'slow']),
                                'connections': rng.choice([1, 2, 2]) if situation == 'good' else rng.choice([2, 3]),
-                               'record_split': rng.random() < 0.4, 'subject': sorted(SUBJECTS)[i % len(SUBJECTS)] if rep % 2 == 1 or tier != 'quick' else 'plain', 'plugins': ['optout', 'optout+bystander', 'bystander+optout'][i % 3], 'warm_name': hostkind == 'name' and situation == 'good' and rng.random() < 0.3,
+                               'record_split': rng.random() < 0.4, 'recvbuf': rng.choice([None, None, 1024, 8192, 16384]), 'subject': sorted(SUBJECTS)[i % len(SUBJECTS)] if rep % 2 == 1 or tier != 'quick' else 'plain', 'plugins': ['optout', 'optout+bystander', 'bystander+optout'][i % 3], 'warm_name': hostkind == 'name' and situation == 'good' and rng.random() < 0.3,
                                'shared_cert': hostkind == 'name' and situation == 'good'}
 
 
